@@ -22,7 +22,10 @@ from harness.translate import c03_tables
 
 ID = "C03"
 LEVEL_TEXT = ("Theorems by structural induction over every expression tree (all node types Griffe maps, all operators, unbounded depth and width): flat iteration "
-              "is the recursive expansion of one-layer iteration (parentheses included) and str() is its concatenation; building with string parsing on equals "
+              "is the recursive expansion of one-layer iteration (parentheses included), the recursive iter(expr) walk of a renderer equals it whenever it ends "
+              "within its fuel (decidable, evaluated by the extracted model on every case), and str() is its concatenation; the model's iterate and _precedence "
+              "are defined over constants regenerated from the source (the precedence= argument of every _yield/_join call of every Expr*.iterate, the branches "
+              "of _precedence, the operator tables) and proved to be the grammar's levels; building with string parsing on equals "
               "building the tree in which exactly the strings selected by the stated rule are replaced by their parsed code (flag on, not under a slice of a name "
               "chain that the module's imports resolve to typing.Literal -- the resolution, i.e. canonical_path, is inside the model; names bound by the expression "
               "itself (comprehension targets, lambda parameters: rule scope_ok) resolve to themselves --, not literal text of an f-string, not in a subscripted "
@@ -40,8 +43,9 @@ LEVEL_NOTE = ("Trusted: Coq kernel, extraction, translator harness/translate/c03
               "abstraction (incl. CPython's own parse of each string constant, the reading of the module header's import statements into the name table and the "
               "local-name flags; the harness's Literal and local-name flags are cross-checked against the model's rules), CPython 3.12's parser/ast.unparse as "
               "authority (nested same-quote f-strings are 3.12 syntax). Lambda parameter alignment is taken in CPython order (equality with get_parameters is "
-              "C02's theorem). Constant spelling is repr (trusted; wf states that an int's repr is its digits). The operand-precedence requirement of each slot "
-              "of each Expr*.iterate is hand-modelled and tied by the exhaustive slot x child product, not translated. as_dict is outside the model.")
+              "C02's theorem). Constant spelling is repr (trusted; wf states that an int's repr is its digits). The order and separators of the pieces each "
+              "Expr*.iterate yields are hand-modelled and tied by the exhaustive slot x child product (the precedence each slot requires is translated). The "
+              "recursive-walk theorem has a fuel hypothesis (checked per case, not discharged for all trees). as_dict is outside the model.")
 MODEL = ("Model.C03_run", "run_C03")
 COQ_TARGETS = ["Proofs/C03_expr.vo", "Proofs/C03_repaired.vo", "Proofs/C03_walk.vo"]
 RULE = ("exhaustive: every (parent node type, operand slot) x every representative child (all node types, all 4+13+2+10 operators, equal-valued constants of "
